@@ -30,13 +30,27 @@ ASSUMPTIONS = ["ambiguous encodings (bool, integral floats for Discrete) are not
                "Discrete = Python int or numpy integer in [0, n)"]
 REQUIRED = ["C17:continue-after-rejection", "C17:malformed-rejected-in-time", "C17:no-effect-on-reject", "C17:malformed-never-executed", "C17:allocation-denoted",
             "C17:target-reached", "C17:residual-in-cash"]
-REQUIRED_CATS = ["box-open-on-one-side", "bad:B:open-high:below", "bad:B:open:nan", "bounds-exclude-zero", "fit-transformers", "per-contract-bounds", "second-episode", "box", "discrete", "with-cash", "nr-contracts", "delay:1", "delay:2"]
+REQUIRED_CATS = ["subclass-overrides-contains", "bad:B:subclass:over-budget", "box-open-on-one-side", "bad:B:open-high:below", "bad:B:open:nan", "bounds-exclude-zero", "fit-transformers", "per-contract-bounds", "second-episode", "box", "discrete", "with-cash", "nr-contracts", "delay:1", "delay:2"]
 REQUIRED_HITS = ["Broker.transact", "Broker.rebalance"]
 TECHNIQUE = "runtime monitoring with fault injection: malformed actions injected into episodes; Broker.transact hook proves nothing executed"
 LEVEL_TEXT = ("Fault enumeration over the kinds of malformed action x space type x delay, each injected at a random step of a real "
               "episode; the Broker.transact hook and the track record show that a rejected action had no effect.")
 LEVEL_NOTE = ("Trusted: the reference membership rule. Mutation audit: upper bound unchecked, NaN accepted, cash entry traded, check "
               "moved after the rebalance, reverted null-action fix are caught.")
+
+
+class BudgetBox(BoxPortfolio):
+    """A user-defined space: a box with one more declared constraint (no leverage: the entries sum to at most
+    `budget`), stated the gymnasium way - by overriding the public contains()."""
+    budget = 1.0
+
+    def contains(self, x):
+        return bool(super().contains(x)) and float(np.sum(x)) <= self.budget
+
+    def sample(self, *args, **kwargs):
+        x = super().sample(*args, **kwargs)
+        tot = float(np.sum(x))
+        return x * (0.99 * self.budget / tot) if tot > self.budget else x
 
 
 def case(ctx, i, tier):
@@ -123,7 +137,16 @@ def case(ctx, i, tier):
                 ("nan", np.array([np.nan] * m)), ("one-nan", np.where(np.arange(m) == rng.randrange(m), np.nan, 0.1)),
                 ("2d", np.array([[0.1] * m])), ("none", None), ("string", "x"), ("inf", np.array([np.inf] * m)),
                 ("scalar", 0.1) if m > 1 else ("-inf", np.array([-np.inf] * m))]
-        if open_side is not None:
+        if open_side is None and not per_contract and asw and lo == 0 and m >= 2 and rng.random() < 0.5:
+            # a SUBCLASS of the box with an extra declared constraint (sum of weights <= 1): an action inside the
+            # box but over the budget is outside the declared space
+            sp_ = BudgetBox(contracts, lo * scale, hi * scale, as_weights=asw)
+            valid = lambda: np.array([rng.uniform(0.0, 0.9 / m) for _ in contracts])
+            over = np.full(m, min(hi, 0.8) * scale)
+            bads = [("subclass:over-budget", over), ("subclass:over-budget-one-zero", np.where(np.arange(m) == 0, 0.0, min(hi, 1.0) * scale)
+                     if m >= 3 else over), ("subclass:nan", np.array([np.nan] * m)), ("subclass:above-box", np.full(m, hi * scale + 1.0))]
+            ctx.cat("subclass-overrides-contains")
+        elif open_side is not None:
             fin_lo = np.where(np.isfinite(los), los, -1.0 * scale)
             fin_hi = np.where(np.isfinite(his), his, 1.0 * scale)
             inside = np.array([min(max(0.1 * scale, l), h) for l, h in zip(fin_lo, fin_hi)])
